@@ -171,7 +171,7 @@ simple('filter_mod', INTLIKE, '=', lambda n, e: rs.ops.filter(p_mod(n[1], n[2]))
 simple('filter_gt', INTLIKE, '=', lambda n, e: rs.ops.filter(p_gt(n[1])), lambda n, c: M.Filter(p_gt(n[1])))
 simple('filter_notnone', ('optint',), 'int', lambda n, e: rs.ops.filter(p_notnone), lambda n, c: M.Filter(p_notnone))
 simple('filter_false', '*', '=', lambda n, e: rs.ops.filter(p_false), lambda n, c: M.Filter(p_false))
-simple('flat_map', ('list',), 'int', lambda n, e: rs.ops.flat_map(), lambda n, c: M.FlatMap())
+simple('flat_map', ('list', 'pair'), 'int', lambda n, e: rs.ops.flat_map(), lambda n, c: M.FlatMap())
 simple('clip', INTLIKE + ('float',), same_demono, lambda n, e: rs.data.clip(n[1], n[2]), lambda n, c: M.Map(clipf(n[1], n[2])))
 simple('fill_none', ('optint',), 'int', lambda n, e: rs.data.fill_none(n[1]), lambda n, c: M.Map(lambda x: n[1] if x is None else x))
 simple('identity', '*', '=', lambda n, e: rs.ops.identity(), lambda n, c: M.Op())
